@@ -40,6 +40,9 @@ theorem next1Loop_ok (p acq ws un) : (next1Loop p acq ws un).ok p := by
   · exact next2Loop_ok ..
   · simp [next1Loop, Next.ok, K.pool]
 
+theorem idleLoop_ok (p ws acc) : (idleLoop p ws acc).ok p := by
+  cases ws <;> simp [idleLoop, Next.ok, K.pool]
+
 theorem resume_ok (k : K) (b : Bool) : (resume k b).ok k.pool := by
   cases k <;> simp only [resume, K.pool]
   · split
@@ -64,6 +67,19 @@ theorem resume_ok (k : K) (b : Bool) : (resume k b).ok k.pool := by
     · simp [Next.ok]
     · exact next2Loop_ok ..
   · simp [Next.ok]
+  · split
+    · simp [Next.ok, K.pool]
+    · exact next1Loop_ok ..
+  · split
+    · simp [Next.ok, K.pool]
+    · exact next2Loop_ok ..
+  · split
+    · simp [Next.ok, K.pool]
+    · exact idleLoop_ok ..
+  · split
+    · simp [Next.ok, K.pool]
+    · exact idleLoop_ok ..
+  · exact idleLoop_ok ..
 
 theorem start_ok (pw : Pid → List Wid) (op : Op) : (start pw op).ok op.pool := by
   cases op <;> simp only [start, Op.pool]
@@ -73,6 +89,8 @@ theorem start_ok (pw : Pid → List Wid) (op : Op) : (start pw op).ok op.pool :=
   · simp [Next.ok, K.pool]
   · exact origLoop_ok ..
   · exact relAllLoop_ok ..
+  · exact idleLoop_ok ..
+  · simp [Next.ok, K.pool]
 
 theorem apply_KOK (th : Thread) (n : Next) (q : Pid) (hn : n.ok q) :
     ∀ cl k, (th.apply n).cur = some (cl, k) → KOK cl k ∧ k.pool = q := by
@@ -124,6 +142,9 @@ theorem next1Loop_todo (p q acq ws un) : (next1Loop q acq ws un).todo p = none :
   · exact next2Loop_todo ..
   · simp [next1Loop, Next.todo, pendingRel]
 
+theorem idleLoop_todo (p q ws acc) : (idleLoop q ws acc).todo p = none := by
+  cases ws <;> simp [idleLoop, Next.todo, pendingRel]
+
 /-- Only a finaliser continues as a finaliser. -/
 theorem resume_todo (p : Pid) (k : K) (b : Bool) :
     (resume k b).todo p = match k with
@@ -153,6 +174,19 @@ theorem resume_todo (p : Pid) (k : K) (b : Bool) :
     · simp [Next.todo]
     · exact next2Loop_todo ..
   · simp [Next.todo]
+  · split
+    · simp [Next.todo, pendingRel]
+    · exact next1Loop_todo ..
+  · split
+    · simp [Next.todo, pendingRel]
+    · exact next2Loop_todo ..
+  · split
+    · simp [Next.todo, pendingRel]
+    · exact idleLoop_todo ..
+  · split
+    · simp [Next.todo, pendingRel]
+    · exact idleLoop_todo ..
+  · exact idleLoop_todo ..
 
 theorem start_todo (pw : Pid → List Wid) (p : Pid) (op : Op) (l : List Wid)
     (h : (start pw op).todo p = some l) : l = pw p := by
@@ -166,6 +200,8 @@ theorem start_todo (pw : Pid → List Wid) (p : Pid) (op : Op) (l : List Wid)
     split at h
     · rename_i hq; simp at h; rw [← h, hq.2]
     · exact absurd h (by simp)
+  · rw [idleLoop_todo] at h; exact absurd h (by simp)
+  · simp [Next.todo, pendingRel] at h
 
 /-- How one step inside `release` moves towards the write. -/
 def RelOut (cl : Call) (W' : Wid → Worker) : Out → Prop
@@ -369,10 +405,11 @@ theorem Reach_runSched {pw : Pid → List Wid} {c0 : Cfg} (sched : List (Tid × 
     | none => simpa using ih c h
     | some c' => simpa using ih c' (Reach.step h ⟨t, u, hs⟩)
 
-/-- Only the program point `uRd` (`has_capacity and is_alive`, evaluated by `next_idle_worker`)
-consults the capacity/liveness oracle; `acquire_by`, `release`, `is_available`, `is_locked` do not. -/
+/-- Only the program points `cExit` / `iExit` (the values returned by `has_capacity` and `is_alive`,
+evaluated by `next_idle_worker` / `idle_workers`) consult the capacity/liveness oracle;
+`acquire_by`, `release`, `is_available`, `is_locked`, `call` do not. -/
 theorem mstep_oracle_irrelevant (u u' : Wid → Bool) (W : Wid → Worker) (t : Tid) (cl : Call)
-    (h : cl.pc ≠ .uRd) : mstep u W t cl = mstep u' W t cl := by
+    (h : cl.pc ≠ .cExit) (h' : cl.pc ≠ .iExit) : mstep u W t cl = mstep u' W t cl := by
   unfold mstep
   cases hpc : cl.pc <;> simp_all
 
